@@ -114,14 +114,17 @@ def rules_c02(ctx):
 
 def rules_c07(ctx):
     S = p_search
-    return [o for o in S.rule_agree_eps(ctx, 'pgm', ctx.units) if 'recursive' in o.arm] + S.rule_window_form(ctx, 'pgm', ctx.units)
+    # the position estimate of a level is also the centre of the window searched in the level below: its conversion and the
+    # width of `estimate + intercept` matter for the work bound as they do for the returned range
+    return ([o for o in S.rule_agree_eps(ctx, 'pgm', ctx.units) if 'recursive' in o.arm] + S.rule_window_form(ctx, 'pgm', ctx.units) +
+            S.rule_conv_range(ctx, 'pgm', ctx.units))
 
 
 def rules_c08(ctx):
     S = p_search
     return (S.rule_range_form(ctx, 'compressed') + S.rule_agree_eps(ctx, 'compressed') + S.rule_clamp(ctx, 'compressed') + S.rule_cap(ctx, 'compressed') +
             S.rule_kind_compressed(ctx) + S.rule_window_form(ctx, 'compressed') + S.rule_compressed_level(ctx) + p_segmentation.rule_precision(ctx) +
-            S.rule_conv_range(ctx, 'compressed') + S.rule_upper_level_sentinel(ctx, 'compressed') + S.rule_upper_level_sentinel(ctx, 'pgm', ctx.units))
+            S.rule_conv_range(ctx, 'compressed') + S.rule_level_sizes(ctx) + S.rule_upper_level_sentinel(ctx, 'compressed') + S.rule_upper_level_sentinel(ctx, 'pgm', ctx.units))
 
 
 def rules_c09(ctx):
